@@ -591,7 +591,8 @@ def promoted_value(unit, k):
         for s in b['stmts']:
             rv = s['rv']
             if rv['k'] == 'agg' and rv.get('ak') == 'adt':
-                vals.append('%s::%s' % (rv['adt'], rv['variant']))
+                payload = [str(const_val(o)) for o in (rv.get('ops') or []) if op_const(o)]
+                vals.append('%s::%s%s' % (rv['adt'], rv['variant'], ('(%s)' % ','.join(payload)) if payload else ''))
             elif rv['k'] == 'use' and op_const(rv['op']):
                 vals.append(const_val(rv['op']))
             elif rv['k'] == 'agg':
